@@ -40,8 +40,9 @@ Value& COSHExpression::value(Context & ctx) const
   case Type::NO_TYPE:
     break;
   case Type::INTEGER:
+    /* a null integer gives a null of the result type */
     if (val.isNull())
-      return val;
+      break;
     v = Value(Numeric(std::cosh(*val.integer())));
     break;
   case Type::NUMERIC:
